@@ -27,7 +27,8 @@ def nested_instance(plan):
     if plan.get('penalty'): inst.SetPenalty(SimPenalty(plan['penalty']))
     if plan.get('termination'): inst.SetTermination(engine.build_term(plan['termination']))
     if plan.get('limits'): inst.SetEvaluationLimits(plan['limits'][0], plan['limits'][1])
-    inst.SetObjective(SimCost(plan['cost']))
+    if plan.get('instance_objective', True): inst.SetObjective(SimCost(plan['cost']))
+    # (without an objective of its own the members minimise the objective of the ensemble they are running in)
     return inst
 
 def build_ensemble(plan, run, map_spec, instance=None):
